@@ -178,6 +178,12 @@ def lowerOptE : Option Expr → Nat → List Instr × Option Opd × Nat
   | none, k => ([], none, k)
   | some e, k => let (c, v, k1) := lowerE e k; (c, some v, k1)
 
+/-- The branch after a `for` condition: conditional if there is a condition, else straight into the body. -/
+def forBranch (v : Option Opd) (lBody lEnd : Nat) : Instr :=
+  match v with
+  | some p => .brc p lBody lEnd
+  | none => .br lBody
+
 /-- Lower a statement; `brk`/`cont` are the labels of the innermost enclosing loop. -/
 def lowerS (brk cont : Option Nat) : Stmt → Nat → List Instr × Nat
   | .skip, k => ([], k)
@@ -227,9 +233,7 @@ def lowerS (brk cont : Option Nat) : Stmt → Nat → List Instr × Nat
     let (cc, v, k1) := lowerOptE c (k0 + 4)
     let (cb, k2) := lowerS (some lEnd) (some lIncr) body k1
     let (cn, _, k3) := lowerOptE next k2
-    let branch := match v with
-      | some p => Instr.brc p lBody lEnd
-      | none => Instr.br lBody
+    let branch := forBranch v lBody lEnd
     (ci ++ [.label lCond] ++ cc ++ [branch, .label lBody] ++ cb ++ [.label lIncr] ++ cn ++
       [.br lCond, .label lEnd], k3)
   | .brk, k => ([.br (brk.getD 0)], k + 1)
